@@ -8,7 +8,7 @@ namespace AsyncFix.Model.Codec
 
 /-! ### digits -/
 
-theorem natToDec_digits (n : Nat) : ∀ c ∈ natToDec n, isDigit c = true := by
+theorem rdr_natToDec_digits (n : Nat) : ∀ c ∈ natToDec n, isDigit c = true := by
   induction n using Nat.strongRecOn with
   | _ n ih =>
     rw [natToDec]
@@ -24,12 +24,12 @@ theorem natToDec_digits (n : Nat) : ∀ c ∈ natToDec n, isDigit c = true := by
       · subst hc
         simp [isDigit]; omega
 
-theorem dec3_digits (n : Nat) : ∀ c ∈ dec3 n, isDigit c = true := by
+theorem rdr_dec3_digits (n : Nat) : ∀ c ∈ dec3 n, isDigit c = true := by
   intro c hc
   simp only [dec3, List.mem_append, List.mem_replicate] at hc
   rcases hc with ⟨_, rfl⟩ | hc
   · rfl
-  · exact natToDec_digits n c hc
+  · exact rdr_natToDec_digits n c hc
 
 theorem not_mem_of_digits {c : Nat} {l : Bytes} (hc : isDigit c = false)
     (h : ∀ x ∈ l, isDigit x = true) : c ∉ l := by
